@@ -132,3 +132,72 @@ func deepen(img []byte, path string, levels, perNode int) ([]byte, error) {
 	binary.LittleEndian.PutUint64(out[lo+at:], cur[0].addr)
 	return out, nil
 }
+
+// toBigEndian re-stores the numeric dataset at path as a big-endian writer would have: the byte-order bit of its datatype
+// message is set and every stored element is byte-swapped in place (contiguous data or every chunk).
+func toBigEndian(img []byte, path string) ([]byte, error) {
+	ref, err := indep.Decode(img, indep.TolerateAll())
+	if ref == nil || (err != nil && !indep.IsUnsupported(err)) {
+		return nil, fmt.Errorf("independent decoder: %v", err)
+	}
+	o := ref.Lookup(path)
+	if o == nil || o.Kind != "dataset" || o.Type == nil || (o.Type.Class != 0 && o.Type.Class != 1) || len(o.Filters) > 0 {
+		return nil, fmt.Errorf("no plain numeric dataset at %s", path)
+	}
+	es := int(o.Type.Size)
+	if es != 2 && es != 4 && es != 8 {
+		return nil, fmt.Errorf("element size %d", es)
+	}
+	out := append([]byte{}, img...)
+	// datatype message: class/version byte, three bit-field bytes, size
+	lo, hi := int(o.Addr), int(o.Addr)+1024
+	if hi > len(out) {
+		hi = len(out)
+	}
+	at := -1
+	for i := lo; i+8 <= hi; i++ {
+		if out[i] == byte(0x10|o.Type.Class) && out[i+1]&1 == 0 && int(binary.LittleEndian.Uint32(out[i+4:])) == es && out[i+3] == 0 {
+			if o.Type.Class == 0 && (out[i+2] != 0 || out[i+1]&^0x08 != 0) { // integers: only the sign bit may be set besides the order bit
+				continue
+			}
+			if at >= 0 {
+				return nil, fmt.Errorf("datatype message not unique")
+			}
+			at = i
+		}
+	}
+	if at < 0 {
+		return nil, fmt.Errorf("datatype message not found")
+	}
+	out[at+1] |= 1
+	swap := func(a, n uint64) error {
+		if a+n > uint64(len(out)) || n%uint64(es) != 0 {
+			return fmt.Errorf("data region [%d,+%d) outside the image", a, n)
+		}
+		for p := a; p < a+n; p += uint64(es) {
+			for i, j := p, p+uint64(es)-1; i < j; i, j = i+1, j-1 {
+				out[i], out[j] = out[j], out[i]
+			}
+		}
+		return nil
+	}
+	switch o.Layout {
+	case "contiguous":
+		n := uint64(es)
+		for _, d := range o.Dims {
+			n *= d
+		}
+		if err := swap(o.DataAddr, n); err != nil {
+			return nil, err
+		}
+	case "chunked":
+		for _, c := range o.Chunks {
+			if err := swap(c.Addr, uint64(c.Size)); err != nil {
+				return nil, err
+			}
+		}
+	default:
+		return nil, fmt.Errorf("layout %s", o.Layout)
+	}
+	return out, nil
+}
